@@ -277,10 +277,16 @@ def case_misc(col, p):
     elif kind == 'scalar_pts':
         f = dadi.Numerics.make_extrap_func(lambda a, pts: np.array([a * pts, 1.0]), extrap_x_l=[0.5])
         for call in ('pos', 'kw'):
-            r = f(2.0, 40) if call == 'pos' else f(2.0, pts=40)
-            col.tick(transitions=1)
-            if list(map(float, r)) != [80.0, 1.0]:
-                col.violation('C07:scalar_pts', p, repr(r))
+            # a single grid size as a Python int or as a numpy integer (ns.max() + 20 is one)
+            for pv in (40, np.int64(40), np.int32(40)):
+                try:
+                    r = f(2.0, pv) if call == 'pos' else f(2.0, pts=pv)
+                except Exception as e:
+                    col.violation('C07:scalar_pts', dict(p, pts_type=type(pv).__name__), '%s: %s' % (type(e).__name__, e))
+                    continue
+                col.tick(transitions=1)
+                if list(map(float, r)) != [80.0, 1.0]:
+                    col.violation('C07:scalar_pts', dict(p, pts_type=type(pv).__name__), repr(r))
     elif kind == 'extrap_x_recorded':
         # Spectrum.from_phi must tag its result with the first interior grid point
         for d in (1, 2, 3):
@@ -299,6 +305,12 @@ def case_misc(col, p):
                     if getattr(fs2, 'extrap_x', None) != grids[0][1]:
                         col.violation('C07:from_phi:extrap_x', dict(p, d=d, pts=pts, grids='different per dimension'),
                                       {'got': repr(getattr(fs2, 'extrap_x', None)), 'first_grid': float(grids[0][1])})
+                    # the inbreeding sampler tags its result by the same rule
+                    fs3 = dadi.Spectrum.from_phi_inbreeding(phi, (2,) * d, grids, [0.3] * d, [2] * d)
+                    col.tick(transitions=1)
+                    if getattr(fs3, 'extrap_x', None) != grids[0][1]:
+                        col.violation('C07:from_phi_inbreeding:extrap_x', dict(p, d=d, pts=pts, grids='different per dimension'),
+                                      {'got': repr(getattr(fs3, 'extrap_x', None)), 'first_grid': float(grids[0][1])})
     elif kind == 'memoised_model':
         # a model that keeps its per-grid results and hands the same object out again (caching models do): every call sequence over single
         # and multiple grid sizes gives the same extrapolation as a model without memory, and the cached objects keep their x
